@@ -12,10 +12,10 @@ func vhook(f *IPv4Filter, ev string) {
 	}
 }
 
-// VerifState reports (maps mode?, list slots used, match-all flag) for coverage accounting.
+// VerifState reports (maps mode?, list slots used) for coverage accounting.
 // It takes the read lock itself.
-func (f *IPv4Filter) VerifState() (maps bool, index int, matchAll bool) {
+func (f *IPv4Filter) VerifState() (maps bool, index int) {
 	f.mutex.RLock()
 	defer f.mutex.RUnlock()
-	return f.mode == modeMaps, f.index, f.matchAll.Load()
+	return f.mode == modeMaps, f.index
 }
